@@ -4,6 +4,7 @@ mod errtree;
 mod c05;
 mod c11;
 mod c12;
+mod c13;
 mod wrappers_gen;
 mod c14;
 mod c15;
@@ -22,6 +23,7 @@ fn main() {
         "C05" => c05::run(&args),
         "C11" => c11::run(&args),
         "C12" => c12::run(&args),
+        "C13" => c13::run(&args),
         "C14" => c14::run(&args),
         "C15" => c15::run(&args),
         other => vfcommon::die(&format!("direct: no monitor for {other}")),
